@@ -94,6 +94,13 @@ func VH_C06_kill_subtree() {
 		}
 	}
 	es.Subscribe(p, vhEvtA{})
+	if vrtChoose(2) == 1 {
+		// a second subscription, and the first one given up again while p is that
+		// type's only subscriber: the remaining subscription must still go at termination
+		es.Subscribe(p, vhEvtB{})
+		es.Unsubscribe(p, vhEvtA{})
+		vrtReach("unsubscribed-one-of-two")
+	}
 	vrtAssert(p.scheduler.Once(p.ref, time.Second, &vhUserMsg{N: 9}, vivid.WithSchedulerReference("job")) == nil, "schedule-ok")
 	w.run(100, "setup-terminates")
 
@@ -207,6 +214,14 @@ func VH_C06_kill_subtree() {
 	vrtAssert(err != nil, "path-released")
 	_, stale := es.subscriberTypes[p.ref.GetPath()]
 	vrtAssert(!stale, "subscriptions-gone")
+	for _, bucket := range es.subscribers {
+		_, in := bucket[p.ref.GetPath()]
+		vrtAssert(!in, "subscriptions-gone")
+	}
+	nb := len(w.boxes[p].all)
+	es.Publish(rec, vhEvtB{N: 5})
+	es.Publish(rec, vhEvtA{N: 6})
+	vrtAssert(len(w.boxes[p].all) == nb, "subscriptions-gone")
 	vrtAssert(len(p.scheduler.jobKeys) == 0 && len(w.quartz.Jobs) == 0, "scheduled-jobs-gone")
 	// kill ordering w.r.t. queued user mail (C02)
 	um := vhIndexOf("p", func(m vivid.Message) bool { u, ok := m.(*vhUserMsg); return ok && u.N == 1 })
